@@ -1,14 +1,13 @@
 #!/bin/sh
-# Sensitivity self-test: applies every seeded change of /verif/seeded to /repo's working tree (never
-# committed), runs the named property's quick correspondence, expects a VIOLATION, and restores /repo.
+# Sensitivity self-test: applies every seeded change of /verif/seeded to a scratch worktree of /repo
+# (under /tmp, removed afterwards), runs the named property's quick correspondence against it and
+# expects a VIOLATION.  /repo itself is not touched.
 cd "$(dirname "$0")/.."
 fail=0
 for d in seeded/*/; do
   id=$(basename "$d")
   prop=$(python3 -c "import json;print(json.load(open('$d/meta.json'))['property'])")
-  if ! git -C /repo apply "$PWD/$d/patch.diff"; then echo "$id: patch does not apply"; fail=1; continue; fi
-  out=$(timeout 1200 ./check "$prop" --skip-proof 2>&1 | grep -E "^VIOLATION" | head -1)
-  git -C /repo checkout -- .
+  out=$(tools/try_mutant.sh "$d/patch.diff" "$prop" 2>&1 | grep -E "^VIOLATION" | head -1)
   if [ -n "$out" ]; then echo "$id: caught by $prop ($out)"; else echo "$id: MISSED by $prop"; fail=1; fi
 done
 exit $fail
